@@ -25,14 +25,14 @@ import (
 )
 
 // mkValidator mirrors createValidator of app/ante/commission_test.go.
-func mkValidator(app *sifapp.SifchainApp, ctx sdk.Context, amount sdk.Int, status stakingtypes.BondStatus, delegator sdk.AccAddress, pk cryptotypes.PubKey) sdk.ValAddress {
+func mkValidator(app *sifapp.SifchainApp, ctx sdk.Context, amount sdk.Int, status stakingtypes.BondStatus, delegator sdk.AccAddress, pk cryptotypes.PubKey, jailed bool) sdk.ValAddress {
 	pkAny, err := codectypes.NewAnyWithValue(pk)
 	if err != nil {
 		panic(err)
 	}
 	op := sdk.ValAddress(pk.Address())
 	v := stakingtypes.Validator{
-		OperatorAddress: op.String(), ConsensusPubkey: pkAny, Status: status, Tokens: sdk.ZeroInt(), DelegatorShares: sdk.ZeroDec(),
+		OperatorAddress: op.String(), ConsensusPubkey: pkAny, Status: status, Jailed: jailed, Tokens: sdk.ZeroInt(), DelegatorShares: sdk.ZeroDec(),
 		Description:   stakingtypes.Description{Moniker: "m"},
 		UnbondingTime: time.Time{},
 		Commission: stakingtypes.Commission{CommissionRates: stakingtypes.CommissionRates{
@@ -230,6 +230,12 @@ func (g *comGen) leafMsg() *node {
 		}
 	case 2, 3, 4:
 		a, i := g.valAddr()
+		if g.rng.Chance(1, 3) {
+			// the delegator is the target validator's own operator account (a self-bond top-up)
+			if va, err := sdk.ValAddressFromBech32(a); err == nil {
+				del = sdk.AccAddress(va).String()
+			}
+		}
 		m = &stakingtypes.MsgDelegate{DelegatorAddress: del, ValidatorAddress: a, Amount: sdk.Coin{Denom: g.denom, Amount: sdk.NewIntFromBigInt(g.amount(i, false))}}
 	case 5, 6:
 		src, _ := g.valAddr()
@@ -278,6 +284,7 @@ func init() {
 		next := func(c sdk.Context, _ sdk.Tx, _ bool) (sdk.Context, error) { return c, nil }
 		maxDepth := 0
 		scen := 0
+		jailedCount := 0
 		for out.N < 2*n {
 			scen++
 			ctx, _ := ctx0.CacheContext()
@@ -326,7 +333,15 @@ func init() {
 				funder := sifapp.AddTestAddrs(app, ctx, 1, sum.AddRaw(1))[0]
 				for i := 0; i < K; i++ {
 					st := []stakingtypes.BondStatus{stakingtypes.Bonded, stakingtypes.Bonded, stakingtypes.Unbonded, stakingtypes.Unbonding}[rng.Intn(4)]
-					op := mkValidator(app, ctx, amts[i], st, funder, pks[i])
+					// a quarter of the validators are JAILED (their tokens stay bonded-plus-unbonding stake; jailed validators are not bonded)
+					jailed := rng.Chance(1, 4)
+					if jailed && st == stakingtypes.Bonded {
+						st = stakingtypes.Unbonding
+					}
+					op := mkValidator(app, ctx, amts[i], st, funder, pks[i], jailed)
+					if jailed {
+						jailedCount++
+					}
 					g.ops = append(g.ops, op.String())
 					g.ids[op.String()] = fmt.Sprintf("v%d", i)
 				}
@@ -404,5 +419,6 @@ func init() {
 		}
 		out.Extra["max_depth"] = maxDepth
 		out.Extra["scenarios"] = scen
+		out.Extra["jailed_validators"] = jailedCount
 	}
 }
